@@ -734,7 +734,12 @@ afterFinal:
 		}
 		// every image that run went through is a possible durable state as well
 		for k := 1; k <= oi.d.Commits(); k++ {
-			sh.add(oi.d.Image(k), st.depth+1, fmt.Sprintf("%s [image %d/%d]", tri, k, oi.d.Commits()), taint)
+			// the last image is where the interrupted run gracefully ended; an earlier one means the process also died there
+			lbl := fmt.Sprintf("%s [image %d/%d]", tri, k, oi.d.Commits())
+			if k < oi.d.Commits() {
+				lbl = fmt.Sprintf("%s then crash-after-commit %d/%d", tri, k, oi.d.Commits())
+			}
+			sh.add(oi.d.Image(k), st.depth+1, lbl, taint)
 		}
 	})
 }
